@@ -502,5 +502,14 @@ def distribution(cases, impl):
                 d["expired_deletes"] += len(re.findall(r"sd\d+", lg))
                 d["half_resets"] += len(re.findall(r"sp\d+", lg))
         d["released_then_restored"] += bool(_monitor(c, o) and "released" in (_monitor(c, o) or ""))
+        for sg in _segs(o):
+            if sg.startswith("bind4 "):
+                w = sg.split()[1]
+                d["binds_" + ("renew" if w == "r" else "exhausted" if w == "x" else "fresh")] = d.get(
+                    "binds_" + ("renew" if w == "r" else "exhausted" if w == "x" else "fresh"), 0) + 1
+            elif sg.startswith("delretry "):
+                k = "delretry_" + ("ok" if " sd" in sg else sg.split()[1])
+                d[k] = d.get(k, 0) + 1
+        d["restarts_started_ok"] = d.get("restarts_started_ok", 0) + o.count("start=ok")
     d["mean_ops"] = round(tot / max(1, len(cases)), 1)
     return d
